@@ -59,6 +59,10 @@ def build_arg(desc):
         return [("object()", specrt.Witness())]
     if k == "pregex":
         return witnesses(desc["type"], desc.get("repeatable"))
+    if k == "selfc":
+        return [(l, v) for l, v in pool_for("selfc") if l.startswith("compiled") == bool(desc.get("compiled"))]
+    if k == "text":
+        return pool_for("text")
     if k == "expr":
         return [(desc["expr"], eval(desc["expr"], ns()))]
     raise ValueError(k)
@@ -90,16 +94,41 @@ def resolve(qualname):
 def call_real(qualname, args):
     owner, f = resolve(qualname)
     args = dict(args)
+    import inspect
     if "self" in args:
         recv = args.pop("self")
-        return f(recv, **args)
-    return f(**args)
+        r = f(recv, **args)
+    else:
+        r = f(**args)
+    if inspect.isgenerator(r):
+        r = list(r)          # E9: a generator function denotes the list of the values it yields
+    return r
 
 
 def check_call(qualname, contract, args):
     """returns dict(ok, why, observed).  args: name -> concrete value"""
     exc_names = set(lib_exceptions())
     raises = contract.get("raises", {})
+    tmp = None
+    if args.get("is_path") is True and isinstance(args.get("source"), str):
+        # is_path: the text is written to a scratch UTF-8 file and the path is passed instead
+        import os, tempfile
+        d = os.path.join(os.path.dirname(os.path.dirname(os.path.abspath(__file__))), ".work")
+        os.makedirs(d, exist_ok=True)
+        fd, tmp = tempfile.mkstemp(suffix=".txt", dir=d)
+        with os.fdopen(fd, "w", encoding="utf-8", newline="") as f:
+            f.write(args["source"])
+        args = dict(args)
+        args["source"] = tmp
+    try:
+        return _check_call(qualname, contract, args, raises)
+    finally:
+        if tmp:
+            import os
+            os.remove(tmp)
+
+
+def _check_call(qualname, contract, args, raises):
     env = dict(args)
     req = contract.get("requires")
     if req and not specrt.eval_clause(req, env):
@@ -163,7 +192,26 @@ def replay(qualname, arg_descs):
 INT_POOL = [-2, -1, 0, 1, 2, 3, 7, 10]
 
 
+MATCH_PATTERNS = [
+    r"\d+", r"(\d)([a-z]?)-", r"([a-z]?)(\d)", r"(a)|(b)", r"(a*)(b*)", r"(?P<x>a)?(?P<y>b)", r"(a)(?P<n>b)", r"", r"a?",
+    r"^$", r"\b", r"(?P<w>\w+) (?P<v>\w*)", r"((a)b)?c", r"x*", r"(?=\d)", r"(\w)(\w)?(\w)?", r".", r"^.*$", r"[^\n]+$", r"a|",
+]
+TEXTS = ["", "a", "ab", "1a-2-3b-", "7 a8", "a12", "abc abd\nxyz 12", "aXbXc", "bbb", "first\n\nthird", "word w", "1-", "aaa", "héllo wörld"]
+
+
 def pool_for(kind):
+    if kind == "selfc":
+        n = ns()
+        out = []
+        for pt in MATCH_PATTERNS:
+            p = n["Pregex"](pt, escape=False)
+            out.append((f"Pregex({pt!r}, escape=False)", p))
+            q = n["Pregex"](pt, escape=False)
+            q.compile()
+            out.append((f"compiled Pregex({pt!r}, escape=False)", q))
+        return out
+    if kind == "text":
+        return [(repr(t), t) for t in TEXTS]
     if kind in ("self", "pregex"):
         return [w for t in WITNESS_EXPRS for w in witnesses(t)]
     if kind == "pre":
